@@ -1867,7 +1867,7 @@ def candidates_all(fn, stored_attrs, ref_fps):
 
 # ------------------------------------------------------------------------------------------------ second batch of rewrites
 CONSUMERS = {"all", "any", "tuple", "set", "frozenset", "sorted", "sum", "min", "max", "list", "dict"}
-CONSUMER_METHODS = {"join", "update", "extend", "difference_update", "intersection_update", "symmetric_difference_update", "union", "difference", "intersection", "issubset", "issuperset", "isdisjoint"}
+CONSUMER_METHODS = {"join", "update", "extend", "fromkeys", "difference_update", "intersection_update", "symmetric_difference_update", "union", "difference", "intersection", "issubset", "issuperset", "isdisjoint"}
 
 
 def _enclosing_stmt_map(fn):
